@@ -44,7 +44,7 @@
   | naming.py:153 `DSN.shift(DSN.relativefy(namespace, module_path), -1)` | see dsn.py:123 | dead branch, string layer only |
   | py2cpp.py:570 `calls.prop.tokens == '__init__'` | equality (since c8f2d33) | yes |
   | py2cpp.py:685 `calls.tokens.startswith('Embed.static')` | bare prefix of a dotted reference | prefix-unsafe but the first element `Embed` is a library name (reserved): no user identifier reaches it; not modelled |
-  | py2cpp.py:687,703 `value.startswith(f'{var_type}(')` | rendered text, terminated by `(` | name-safe (`A(` is not a prefix of `AB(`); NOT structure-safe: `A(1).dup()` is taken for a constructor call and rendered `A x{1).dup(};` — genuine defect, not a renaming defect (proposed/C08-initializer-prefix-call-chain.md) |
+  | py2cpp.py:692-697 `is_initializer_call`: `value.startswith(f'{var_type}(')`, `break_last_block(value, '()')[0] == var_type` (since dbbf835; before: only the prefix test, which took `A(1).dup()` for a constructor call) | rendered text: prefix INCLUDING the `(`, then equality of the callee text | yes: `initializer_call_callee`; the variant without the `(` is refuted: `initializer_call_prefix_counterexample` (`Widget_build(2)` for type `Widget`) |
   | py2cpp.py:743 `throws.find('(')` | first `(` of a rendered call | names pass through; search only |
   | py2cpp.py:781 `module_path.startswith(in_import.replace('/', '.'))` | module path vs configured import dir, bare prefix | module names are outside the renaming domain of C08; not modelled |
   | py2cpp.py:126,433,440,849 | include paths, `#include` lines, numeric literals | no identifiers |
@@ -422,6 +422,39 @@ example :
     breakDictIterator ['a','-','>','b','.','i','t','e','m','s','(',')'] = some (['a','-','>','b'], ['.'], ['i','t','e','m','s']) ∧
     breakRelay ['a',':',':','b','-','>','c'] = some (['a',':',':','b'], ['-','>']) ∧
     pluckClassVarName ['i','n','t',' ','n',' ','=',' ','0',';'] = ['n'] := by
+  decide +kernel
+
+
+open Tranp.Fragment in
+/-- `is_initializer_call` accepts only a value that starts with the type name FOLLOWED BY `(`: a callee whose name merely begins
+    with the (rendered) type name — `Widget_build(2)`, `int_of(1)` — is never taken for a constructor call. -/
+theorem initializer_call_callee (value varType : Str) (h : isInitializerCall value varType = some true) :
+    Str.startsWith value (varType ++ ['(']) = true ∧ lastBlockPrefix value = some varType := by
+  unfold isInitializerCall at h
+  split at h
+  · simp at h
+  · rename_i hc
+    simp only [Bool.or_eq_true, Bool.not_eq_true', not_or, Bool.not_eq_false] at hc
+    refine ⟨hc.1, ?_⟩
+    cases hp : lastBlockPrefix value with
+    | none => rw [hp] at h; simp at h
+    | some p => rw [hp] at h; simp at h; rw [h]
+
+open Tranp.Fragment in
+/-- REGRESSION for a seeded mutation: without the `(` in the prefix test, `Widget_build(2)` passes for the type `Widget`. -/
+theorem initializer_call_prefix_counterexample :
+    ¬ ∀ value varType : Str, isInitializerCallBroken value varType = isInitializerCall value varType := by
+  intro h
+  have h1 := h ['W','i','d','g','e','t','_','b','u','i','l','d','(','2',')'] ['W','i','d','g','e','t']
+  revert h1
+  decide +kernel
+
+open Tranp.Fragment in
+example :
+    isInitializerCall ['A','(','1',')'] ['A'] = some true ∧
+    isInitializerCall ['A','(','1',')','.','d','(',')'] ['A'] = some false ∧
+    isInitializerCall ['A','B','(','1',')'] ['A'] = some false ∧
+    isInitializerCall ['A','(','B','(','1',')',')'] ['A'] = some true := by
   decide +kernel
 
 end Tranp.C08
